@@ -422,6 +422,108 @@ def check_series(case):
     return {'nt': len(fs) >= 2, 'cls': [what, 'union' if case['union'] else 'intersection', 'hier' if case.get('hier') else 'flat']}
 
 
+# ---------------------------------------------------------------------------------------------
+# index class and name of the result: inputs of one index class keep it, a mixture falls back to the plain Index; the
+# labels (here: days, held by IndexDate or by a plain Index of the same datetime64 values) and cells are kept either way
+
+@st.composite
+def index_class_cases(draw):
+    ch = {'what': draw(st.sampled_from(['series_concat', 'frame_concat_axis0', 'frame_concat_axis1_aligned', 'series_overlay'])),
+          'union': draw(st.booleans())}
+    k = draw(st.sampled_from([2, 3, 2]))
+    ins = []
+    day = 0
+    for q in range(k):
+        ln = draw(st.integers(1, 3))
+        ins.append({'typed': draw(st.sampled_from([True, True, False])), 'name': draw(st.sampled_from([None, 'x', 'y', None])), 'start': day, 'len': ln,
+                    'shared': draw(st.booleans())})
+        day += ln
+    return dict({'ins': ins}, **ch)
+
+
+def _ic_index(spec, aligned):
+    start = 0 if (aligned and spec['shared']) else spec['start']
+    days = np.array([np.datetime64('2021-03-01') + (start + i) for i in range(spec['len'])], dtype='M8[D]')
+    return (sf.IndexDate(days, name=spec['name']) if spec['typed'] else sf.Index(days, name=spec['name'])), [canon(d) for d in days]
+
+
+def check_index_class(case):
+    what = case['what']
+    aligned = what in ('frame_concat_axis1_aligned', 'series_overlay')
+    built = [_ic_index(x, aligned) for x in case['ins']]
+    all_typed = all(x['typed'] for x in case['ins'])
+    want_cls = 'IndexDate' if all_typed else 'Index'
+    cells = {}
+    if what == 'series_concat':
+        ss = [sf.Series(np.arange(len(days)) + 10 * q, index=ix) for q, (ix, days) in enumerate(built)]
+        r = lib(lambda: sf.Series.from_concat(ss))
+        want_labels = [d for _, days in built for d in days]
+        for q, (_, days) in enumerate(built):
+            for i, d in enumerate(days):
+                cells[repr(d)] = i + 10 * q
+        got_index = None if isinstance(r, Raised) else r.index
+        got = None if isinstance(r, Raised) else dict(zip([repr(x) for x in obs.labels_of(r.index)], arr_list(r.values)))
+    elif what == 'frame_concat_axis0':
+        fs = [sf.Frame((np.arange(len(days) * 2) + 100 * q).reshape(len(days), 2), index=ix, columns=('a', 'b')) for q, (ix, days) in enumerate(built)]
+        r = lib(lambda: sf.Frame.from_concat(fs, axis=0))
+        want_labels = [d for _, days in built for d in days]
+        for q, (_, days) in enumerate(built):
+            for i, d in enumerate(days):
+                cells[repr(d)] = i * 2 + 100 * q
+        got_index = None if isinstance(r, Raised) else r.index
+        got = None if isinstance(r, Raised) else dict(zip([repr(x) for x in obs.labels_of(r.index)], arr_list(r['a'].values)))
+    else:
+        # the index is the aligned axis: union (or intersection) of the inputs' days
+        sets = [days for _, days in built]
+        if case['union'] or what == 'series_overlay':
+            want_labels = []
+            for days in sets:
+                for d in days:
+                    if not any(eq(d, x) for x in want_labels):
+                        want_labels.append(d)
+        else:
+            want_labels = [d for d in sets[0] if all(any(eq(d, x) for x in o) for o in sets[1:])]
+        if what == 'series_overlay':
+            ss = [sf.Series(np.arange(len(days), dtype=float) + 10 * q, index=ix) for q, (ix, days) in enumerate(built)]
+            r = lib(lambda: sf.Series.from_overlay(ss))
+            for q, (_, days) in reversed(list(enumerate(built))):
+                for i, d in enumerate(days):
+                    cells[repr(d)] = float(i + 10 * q)
+            got_index = None if isinstance(r, Raised) else r.index
+            got = None if isinstance(r, Raised) else dict(zip([repr(x) for x in obs.labels_of(r.index)], arr_list(r.values)))
+        else:
+            fs = [sf.Frame((np.arange(len(days)) + 100 * q).reshape(len(days), 1), index=ix, columns=('c%d' % q,)) for q, (ix, days) in enumerate(built)]
+            r = lib(lambda: sf.Frame.from_concat(fs, axis=1, union=case['union'], fill_value=-1))
+            for i, d in enumerate(built[0][1]):
+                cells[repr(d)] = i
+            got_index = None if isinstance(r, Raised) else r.index
+            got = None if isinstance(r, Raised) else dict(zip([repr(x) for x in obs.labels_of(r.index)], arr_list(r['c0'].values)))
+            cells = {k: v for k, v in cells.items() if any(repr(d) == k for d in want_labels)}
+    desc = '%s of %s' % (what, [('IndexDate' if x['typed'] else 'Index', x['name']) for x in case['ins']])
+    dup = len({repr(d) for d in want_labels}) != len(want_labels)
+    if isinstance(r, Raised):
+        if dup and r.cls in INIT_ERRORS:
+            return {'nt': False, 'cls': ['ic:' + what, 'ic-dup']}
+        if not want_labels:
+            raise Discard('empty result axis (listed zero-size class)')
+        raise Failure('raised:%s' % r.cls, '%s raised %r' % (desc, r.exc), r.where)
+    if dup:
+        raise Failure('no-raise', '%s: duplicate labels accepted' % desc)
+    gl = obs.labels_of(got_index)
+    if not same_multiset(gl, want_labels) or (not aligned and not all(eq(a, b) for a, b in zip(gl, want_labels))):
+        raise Failure('labels', '%s: labels %s expected %s' % (desc, short(gl), short(want_labels)))
+    for k_, v in cells.items():
+        if k_ not in got or not eq(got[k_], v):
+            raise Failure('value', '%s: cell under %s is %r expected %r' % (desc, k_, got.get(k_), v))
+    if type(got_index).__name__ != want_cls and want_labels:
+        raise Failure('index-class', '%s: the result index is a %s, expected %s' % (desc, type(got_index).__name__, want_cls))
+    names = {x['name'] for x in case['ins']}
+    want_name = case['ins'][0]['name'] if len(names) == 1 else None
+    if obs.canon_name(got_index.name) != obs.canon_name(want_name):
+        raise Failure('index-name', '%s: the result index is named %r, expected %r' % (desc, got_index.name, want_name))
+    return {'nt': not all_typed and case['ins'][0]['typed'], 'cls': ['ic:' + what, 'ic-all-typed' if all_typed else 'ic-mixed', 'ic-names:%d' % len(names)]}
+
+
 def _expected_empty(case):
     """True when the concatenation / overlay result has no rows or no columns."""
     if 'inputs' in case:
@@ -461,6 +563,8 @@ def tag(case, f):
 SUBS = [
     Sub('frame_concat', concat_cases(), check_concat, quick=6000, thorough=48000, tag=tag,
         rule='Frame.from_concat / from_concat_items vs cell mapping model'),
+    Sub('index_class', index_class_cases(), check_index_class, quick=1600, thorough=8000, tag=tag,
+        rule='class and name of the result index: one class among the inputs is kept, a mixture gives the plain Index; day labels and cells kept either way'),
     Sub('series_overlay', series_cases(), check_series, quick=4800, thorough=24000, tag=tag,
         rule='Series.from_concat(_items), Series/Frame.from_overlay vs model'),
 ]
